@@ -180,7 +180,6 @@ class _Stats:
 
 
 def _load_module(prop: str):
-    prop = os.environ.get("VERIF_MODULE_OVERRIDE", prop)
     import importlib
 
     if VERIF_DIR not in sys.path:
